@@ -53,6 +53,9 @@ func (x *exec) doOp(op string) string {
 	switch name {
 	case "Start":
 		x.invoked[i] = true
+		x.e.mu.Lock()
+		x.here[i] = true
+		x.e.mu.Unlock()
 		err := x.am.StartSession(&radius.AccountingSession{SessionID: c.id, Username: c.user, MAC: append(net.HardwareAddr{}, c.mac...),
 			FramedIP: append(net.IP{}, c.ip...), NASPort: uint32(100 + i), Class: append([]byte{}, c.class...)})
 		if err == nil {
